@@ -36,6 +36,14 @@ impl Model {
     pub fn decode(&mut self, src: &mut &[u8], range_coder: &mut RangeCoder) -> io::Result<u8> {
         let freq = range_coder.range_get_freq(self.total_freq);
 
+        // The frequencies sum to `total_freq`, i.e., a larger value does not select a symbol.
+        if freq >= self.total_freq {
+            return Err(io::Error::new(
+                io::ErrorKind::InvalidData,
+                "invalid cumulative frequency",
+            ));
+        }
+
         let mut acc = 0;
         let mut x = 0;
 
